@@ -1,6 +1,7 @@
 package dgen
 
 import (
+	"bytes"
 	"fmt"
 	"os"
 	"path/filepath"
@@ -19,7 +20,7 @@ import (
 // the full 64-bit range and texts that must be refused.
 func TestC19GeneratedEnums(t *testing.T) {
 	rec := evid.New(t, "C19", "enum definitions from the random dialect model (ordinary/bitmask, decimal/0x/0b/a**b values, multi-bit entries, enums extended by an includer, bitmask attribute spelled true/1/false/0/absent) converted by conversion.Convert, compiled, and probed: every defined constant, single flag, generated flag combination, zero and unnamed 64-bit values must render as the property says and parse back to the same value; texts that are no name, combination or number must be refused; non-trivial = dialect with both an ordinary and a bitmask enum; distinct by hash of the XML")
-	rec.Require("generated-ordinary-enum", "generated-bitmask-enum", "bitmask-attribute-spelled-0-or-false", "bitmask-attribute-spelled-1")
+	rec.Require("generated-ordinary-enum", "generated-bitmask-enum", "bitmask-attribute-spelled-0-or-false", "bitmask-attribute-spelled-1", "definitions-sharing-an-included-file-whose-enum-one-of-them-extends")
 	root := scratch(t)
 	defer os.RemoveAll(root)
 	evid.Check(t, rec, evid.N(8, 40), func(t *rapid.T) {
@@ -45,6 +46,34 @@ func TestC19GeneratedEnums(t *testing.T) {
 			}
 			batch = append(batch, d)
 			pkgDirs = append(pkgDirs, sub)
+			// a second definition in the same directory, converted by the same process right after d, sharing
+			// d's included files: what d added to their enums must not be part of it, and what is generated
+			// for it must be what a conversion that never saw d generates
+			if sib, ok := SiblingOf(d); ok {
+				sdir, err := convert(sib, filepath.Join(root, sub))
+				if err != nil {
+					fail(sib, "definition that includes the same files as the one converted just before it (and defines nothing itself) refused: %v", err)
+				}
+				adir, err := convert(sib, filepath.Join(root, caseDir, fmt.Sprintf("alone%d", i)))
+				if err != nil {
+					fail(sib, "valid definition refused: %v", err)
+				}
+				t1, e1 := readTree(sdir)
+				t2, e2 := readTree(adir)
+				if e1 != nil || e2 != nil || len(t1) != len(t2) {
+					fail(sib, "converted after a definition that shares its included files: %d generated files, converted alone: %d (%v %v)", len(t1), len(t2), e1, e2)
+				}
+				for name, b1 := range t1 {
+					if !bytes.Equal(b1, t2[name]) {
+						fail(sib, "generated file %s differs between a conversion that follows the conversion of a definition sharing the included files (top file of that one:\n%s) and a conversion alone", name, d.Files[0].XML())
+					}
+				}
+				batch = append(batch, sib)
+				pkgDirs = append(pkgDirs, sub)
+				if len(sib.ExtraProbe) > 0 {
+					rec.Class("definitions-sharing-an-included-file-whose-enum-one-of-them-extends", 1)
+				}
+			}
 		}
 		writeProbe(root, batch, pkgDirs)
 		res, out, err := buildAndRun(root)
